@@ -1,0 +1,43 @@
+//go:build verif
+
+package xpath
+
+import (
+	"runtime"
+	"sync/atomic"
+	"time"
+)
+
+// Verification hooks (build tag verif only): widen the interleavings between
+// concurrent compilations (function table lookup) and between the
+// instructions of concurrent runs, and re-arm the lazy plugin load.
+
+var verifYieldMode atomic.Int64 // 0 off, 1 Gosched, 2 Gosched + short sleeps
+var verifYieldCtr atomic.Uint64
+
+// VerifSetYield selects the yield profile of the hooks.
+func VerifSetYield(mode int) { verifYieldMode.Store(int64(mode)) }
+
+func verifYield(site int) {
+	m := verifYieldMode.Load()
+	if m == 0 {
+		return
+	}
+	n := verifYieldCtr.Add(1)
+	// cheap deterministic-ish mixing of the call counter
+	h := (n ^ uint64(site)*0x9e3779b97f4a7c15) * 0xbf58476d1ce4e5b9
+	switch {
+	case h>>61 == 0 && m >= 2:
+		time.Sleep(time.Duration(h>>40&0x1f) * time.Microsecond)
+	case h>>62 <= 1:
+		runtime.Gosched()
+	}
+}
+
+// VerifResetPlugins re-arms the once-per-process lazy plugin load of
+// LookupXpathFunction.  Call at a quiescent point only.
+func VerifResetPlugins() {
+	mu.Lock()
+	pluginsLoaded = false
+	mu.Unlock()
+}
